@@ -14,6 +14,9 @@ var _ wallet.SingleAddressStore = (*Store)(nil)
 // UnspentSiacoinElements returns the spendable siacoin outputs in the wallet.
 func (s *Store) UnspentSiacoinElements() (utxos []types.SiacoinElement, err error) {
 	err = s.transaction(func(tx *txn) error {
+		// the transaction may be retried: start from an empty result
+		utxos = utxos[:0]
+
 		rows, err := tx.Query(`SELECT id, siacoin_value, sia_address, leaf_index, merkle_proof, maturity_height FROM wallet_siacoin_elements`)
 		if err != nil {
 			return fmt.Errorf("failed to query unspent siacoin elements: %w", err)
@@ -49,6 +52,9 @@ func (s *Store) WalletEventCount() (count uint64, err error) {
 // (nil, nil) should be returned.
 func (s *Store) WalletEvents(offset, limit int) (events []wallet.Event, err error) {
 	err = s.transaction(func(tx *txn) error {
+		// the transaction may be retried: start from an empty result
+		events = events[:0]
+
 		rows, err := tx.Query(`SELECT raw_data FROM wallet_events ORDER BY maturity_height DESC LIMIT ? OFFSET ?`, limit, offset)
 		if err != nil {
 			return fmt.Errorf("failed to query wallet events: %w", err)
